@@ -147,9 +147,80 @@ func customTr(k int, s string) string {
 	return reverse(s)
 }
 
-type logger struct{ evs []string }
+// logger collects the callback events of ONE observed parse. hist != nil selects the parse-in-the-middle history:
+// every prefix of a check chain (and every inner stage of a pipeline) is PARSED, muted, with each of the hist inputs
+// right after it is built and before the next check / overwrite / refinement / transform is attached to it.
+type logger struct {
+	evs       []string
+	mute      bool
+	hist      []func() any
+	warmPanic string
+}
+
+func (l *logger) raw(s string) {
+	if !l.mute {
+		l.evs = append(l.evs, s)
+	}
+}
+
+// warm parses the schema built so far with every history input; callbacks are muted, results dropped: the only
+// thing that may survive is state the library keeps in the schema, which the derived schemas must not see.
+func warm[T any](l *logger, s core.ZodType[T]) {
+	if l.hist == nil {
+		return
+	}
+	l.mute = true
+	for _, mk := range l.hist {
+		if pm := hx.Safely(func() { _, _ = s.Parse(mk()) }); pm != "" && l.warmPanic == "" {
+			l.warmPanic = pm
+		}
+	}
+	l.mute = false
+}
+
+// fresh: a deep copy of an input (pointer inputs are written through by overwrites).
+func fresh(v any) any {
+	switch x := v.(type) {
+	case *string:
+		c := *x
+		return &c
+	case *int:
+		c := *x
+		return &c
+	case []int:
+		return cloneInts(x)
+	case *[]int:
+		c := cloneInts(*x)
+		return &c
+	case map[string]any:
+		c := map[string]any{}
+		for k, e := range x {
+			c[k] = e
+		}
+		return c
+	case *map[string]any:
+		c := map[string]any{}
+		for k, e := range *x {
+			c[k] = e
+		}
+		return &c
+	}
+	return v
+}
+
+func cloneInts(x []int) []int {
+	if x == nil {
+		return nil
+	}
+	c := make([]int, len(x))
+	copy(c, x)
+	return c
+}
 
 func (l *logger) add(kind string, tag, pos int, v any) {
+	if l.mute {
+		return
+	}
 	l.evs = append(l.evs, fmt.Sprintf("%s%d.%d=%s", kind, tag, pos, anyHex(v)))
 }
 
@@ -211,6 +282,7 @@ func tyMsg(tag int) string { return fmt.Sprintf("ty%d", tag) }
 
 func buildBaseVal(p *pipe, l *logger) core.ZodType[string] {
 	s := gozod.String(tyMsg(p.tag))
+	warm[string](l, s)
 	for pos, c := range p.cs {
 		pos, c := pos, c
 		m := msg(p.tag, pos)
@@ -255,12 +327,14 @@ func buildBaseVal(p *pipe, l *logger) core.ZodType[string] {
 		case "chk":
 			s = s.Check(func(v string, pl *core.ParsePayload) { pushIssues(p, pos, c, l, v, pl) }, customParams(p, pos, c, l, false))
 		}
+		warm[string](l, s)
 	}
 	return s
 }
 
 func buildBasePtr(p *pipe, l *logger) core.ZodType[*string] {
 	s := gozod.StringPtr(tyMsg(p.tag))
+	warm[*string](l, s)
 	deref := func(v *string) string {
 		if v == nil {
 			return ""
@@ -321,6 +395,7 @@ func buildBasePtr(p *pipe, l *logger) core.ZodType[*string] {
 		case "chk":
 			s = s.Check(func(v *string, pl *core.ParsePayload) { pushIssues(p, pos, c, l, v, pl) }, customParams(p, pos, c, l, false))
 		}
+		warm[*string](l, s)
 	}
 	return s
 }
@@ -335,14 +410,17 @@ func build(p *pipe, l *logger) core.ZodType[any] {
 		return anyAdapter[string]{buildBaseVal(p, l), p.tag}
 	case "T":
 		src := build(p.a, l)
+		warm[any](l, src)
 		return core.NewZodTransform[any, any](src, func(in any, _ *core.RefinementContext) (any, error) {
 			s := asString(in)
-			l.evs = append(l.evs, fmt.Sprintf("t%d=%s", p.id, hexs(s)))
+			l.raw(fmt.Sprintf("t%d=%s", p.id, hexs(s)))
 			return customTr(p.k, s), nil
 		})
 	}
 	src := build(p.a, l)
 	dst := build(p.b, l)
+	warm[any](l, src)
+	warm[any](l, dst)
 	return core.NewZodPipe[any, any](src, dst, func(in any, pc *core.ParseContext) (any, error) {
 		return dst.Parse(in, pc)
 	})
@@ -363,8 +441,24 @@ func asString(v any) string {
 var msgRe = regexp.MustCompile(`^m(\d+)\.(\d+)$`)
 var tyRe = regexp.MustCompile(`^ty(\d+)$`)
 
-func observe(p *pipe, input any) string {
-	l := &logger{}
+// observe: the observation of the pipeline built in one go and, when hist != nil, also of the pipeline built with
+// the parse-in-the-middle history. Whether an ancestor was parsed before a schema is derived from it is not an input
+// of the model (a schema is its check list): both must be the same observation — judged here, on the implementation
+// alone; the history's observation is what is compared with the model of the FULL chain.
+func observe(p *pipe, mk func() any, hist []func() any, one func(*pipe, any, []func() any) string) string {
+	plain := one(p, mk(), nil)
+	if hist == nil {
+		return plain
+	}
+	h := one(p, mk(), hist)
+	if h != plain {
+		return h + " ?history-dependent:built-in-one-go=" + strings.ReplaceAll(plain, " ", "_")
+	}
+	return h
+}
+
+func observe1(p *pipe, input any, hist []func() any) string {
+	l := &logger{hist: hist}
 	var head string
 	pm := hx.Safely(func() {
 		sch := build(p, l)
@@ -377,6 +471,9 @@ func observe(p *pipe, input any) string {
 	})
 	if pm != "" {
 		return "panic " + strings.ReplaceAll(pm, "\n", " ")
+	}
+	if l.warmPanic != "" {
+		return "panic in-a-history-parse " + strings.ReplaceAll(l.warmPanic, "\n", " ")
 	}
 	return head + ";" + strings.Join(l.evs, ",")
 }
@@ -502,6 +599,50 @@ func fragment(r *hx.Rng, in string, where int) string {
 	return in[i : i+n]
 }
 
+// genHist: the inputs every prefix of the chain is parsed with in a parse-in-the-middle history: the case's own
+// input by value and by pointer, other values of the type (valid for some prefixes, invalid for others), a value of
+// another type and nil (rejected by the type dispatch).
+func genHist(r *hx.Rng, in any, other func() any) []func() any {
+	ptrOf := func(v any) any {
+		switch x := fresh(v).(type) {
+		case string:
+			return &x
+		case int:
+			return &x
+		case []int:
+			return &x
+		case map[string]any:
+			return &x
+		}
+		return v
+	}
+	var hs []func() any
+	if r.Chance(70) {
+		hs = append(hs, func() any { return fresh(in) })
+	}
+	if r.Chance(50) {
+		hs = append(hs, func() any { return ptrOf(in) })
+	}
+	for n := r.Intn(3); n > 0; n-- {
+		o := other()
+		if r.Chance(30) {
+			hs = append(hs, func() any { return ptrOf(o) })
+		} else {
+			hs = append(hs, func() any { return fresh(o) })
+		}
+	}
+	if r.Chance(15) {
+		hs = append(hs, func() any { return 3.5 })
+	}
+	if r.Chance(10) {
+		hs = append(hs, func() any { return nil })
+	}
+	if len(hs) == 0 {
+		hs = append(hs, func() any { return fresh(in) })
+	}
+	return hs
+}
+
 type genState struct{ tag, tid int }
 
 func genPipe(r *hx.Rng, depth int, in string, st *genState, maxChecks int) *pipe {
@@ -556,19 +697,29 @@ func main() {
 			depth = 1 + r.Intn(3)
 		}
 		p := genPipe(r, depth, in, st, 8)
-		var input any = in
 		how := p.how()
 		// value and pointer schemas both accept string and *string inputs
-		if r.Chance(40) {
-			v := in
-			input = &v
+		isPtr := r.Chance(40)
+		mk := func() any {
+			if isPtr {
+				v := in
+				return &v
+			}
+			return in
+		}
+		if isPtr {
 			how += " in=*string"
 		} else {
 			how += " in=string"
 		}
-		obs := observe(p, input)
+		var hist []func() any
+		if r.Chance(40) {
+			hist = genHist(r, in, func() any { return genString(r, 8) })
+			how += " history=parse-after-every-prefix"
+		}
+		obs := observe(p, mk, hist, observe1)
 		star := ""
-		if _, isPtr := input.(*string); isPtr {
+		if isPtr {
 			star = "*"
 		}
 		o.Emit(fmt.Sprintf("c10 %s | %s%s #%s", p.tokens(), hexs(in), star, how), obs)
